@@ -617,7 +617,7 @@ def diff_defs(r1, r2):
                 base = f1[1]
                 while base[0] in ("option", "default"):
                     base = base[1]
-                cls = "bitstring_constants_lost_on_reparse" if base[0] == "bits" and f2[3] == () else "reparse_constants_differ"
+                cls = consts_diff_class(f1[1], f2[3])
                 out.append((cls, "%s.%s: %s became %s" % (r1["name"], f1[0], f1[3], f2[3])))
     elif k == "enum":
         if r1["variants"] != r2["variants"]:
@@ -639,9 +639,27 @@ def diff_defs(r1, r2):
             base = r1["type"]
             while base[0] in ("option", "default"):
                 base = base[1]
-            cls = "bitstring_constants_lost_on_reparse" if base[0] == "bits" and r2["consts"] == () else "reparse_constants_differ"
+            cls = consts_diff_class(r1["type"], r2["consts"])
             out.append((cls, "%s: %s became %s" % (r1["name"], r1["consts"], r2["consts"])))
     return out
+
+
+def consts_diff_class(t, back):
+    """narrow class for constants that came back different: `t` the RustType that carries them, `back` what came back"""
+    base, below_default = t, False
+    while base[0] in ("option", "default"):
+        below_default = below_default or base[0] == "default"
+        base = base[1]
+    if back == () and base[0] == "bits":
+        return "bitstring_constants_lost_on_reparse"
+    if back == () and base[0] == "int" and below_default:
+        # into_asn hands const(..) to an INTEGER below optional(..) only (Type::no_optional_mut): not below default(..)
+        return "default_integer_constants_lost_on_reparse"
+    if back == () and base[0] == "int" and t[0] == "option":
+        # an extension addition (to_rust wraps it in Option): into_asn restores the constants, but to_rust_keep_names reads
+        # them with to_rust_constants(Type::Optional(..)) = none.  NOT a listed finding yet: see GEN_EXT_ADDITION_NAMED
+        return "extension_addition_constants_lost_on_reparse"
+    return "reparse_constants_differ"
 
 
 def type_diff_class(a, b):
@@ -764,6 +782,13 @@ def REF(n):
     return ["ref", n]
 
 
+# Named numbers on an INTEGER extension addition come back without constants (class
+# extension_addition_constants_lost_on_reparse, witness  S ::= SEQUENCE { a BOOLEAN, ..., b INTEGER { x(1) } (0..9) }).
+# Reported to the lead; until it is a `finding:` / `fixed:` line of KNOWN_FINDINGS.txt the generators of this check leave the
+# family out (set to True to generate it: template IntsNamedDefault.E and the random grammar).
+GEN_EXT_ADDITION_NAMED = False
+
+
 def templates():
     """hand-written pool: every production of the attribute language at least once"""
     P = []
@@ -779,6 +804,12 @@ def templates():
                           T("J", INT(1, "MAX", True)), T("K", INT("MIN", 0)), T("L", INT("MIN", 9223372036854775807)), T("N", INT(0, 9223372036854775807))]))
     P.append(M("IntsNamed", [T("A", INT(0, 9, named=[["zero", 0], ["nine", 9]])), T("B", INT(named=[["my-const", 5], ["other", -7]])),
                              T("S", SEQ([C("fa", INT(0, 255, named=[["low", 1], ["high-value", 255]])), C("fb", INT(named=[["x", 3]]), "opt")]))]))
+    # named numbers below DEFAULT, in SEQUENCE and SET (F08-21)
+    P.append(M("IntsNamedDefault", [T("S", SEQ([C("fa", INT(0, 9, named=[["a", 1], ["b", 2]]), ["def", 1]),
+                                                C("fb", INT(-5, 5, named=[["low-value", -5]]), ["def", -5]), C("fc", BOOL)])),
+                                    T("X", SET([C("fa", INT(0, 255, named=[["max-v", 255]]), ["def", 0]), C("fb", BOOL, "opt")])),
+                                    T("E", SEQ([C("fa", BOOL), C("fb", INT(0, 9, named=[["x", 1]] if GEN_EXT_ADDITION_NAMED else None)),
+                                                            C("fc", INT(0, 9, named=[["y", 2]]), ["def", 2])], 1))]))
     # sizes
     sizes = [None, FIX(0), FIX(1), FIX(8), FIX(8, True), RNG(0, 10), RNG(1, 64), RNG(1, 64, True), RNG(0, 65535), RNG(0, 65536), RNG(4, 4), RNG(4, 4, True),
              RNG(2, "MAX"), RNG("MIN", 12), RNG("MIN", "MAX"), RNG(0, "MAX"), RNG(1, 9223372036854775806)]
@@ -942,14 +973,20 @@ class Gen:
         r = self.rng
         n = r.randrange(1, 6)
         tagged = r.random() < 0.25
+        ext = self.marker(n)
         comps = []
         for i in range(n):
             t = self.ty(depth)
             m = r.random()
             opt = None if m < 0.55 else "opt" if m < 0.8 else self.default_for(t)
+            addition = ext is not None and i >= ext
+            if (t[0] == "int" and opt != "opt" and isinstance(t[1], int) and isinstance(t[2], int) and r.random() < 0.3
+                    and (opt is not None or not addition or GEN_EXT_ADDITION_NAMED)):
+                # named numbers (inside the constraint); below OPTIONAL to_rust drops them, so not there
+                t = INT(t[1], t[2], t[3], [["first", t[1]], ["last-one", t[2]]][:r.randrange(1, 3)])
             comps.append(C("f%d" % i if r.random() < 0.7 else r.choice(["ab-cd", "xy-zw-uv", "long-name"]) + str(i), t, opt,
                            self.unique_tag(i) if tagged and r.random() < 0.8 else None))
-        return [r.choice(["seq", "seq", "set"]), comps, self.marker(n)]
+        return [r.choice(["seq", "seq", "set"]), comps, ext]
 
     def unique_tag(self, i):
         r = self.rng
@@ -1229,6 +1266,8 @@ class AttrItemGen:
                 t = [6] + t
             elif k < 0.4:
                 t = [5] + self.ag.size()
+            elif k < 0.55:
+                t = [7] + t + self.ag.lit_for(t)          # named numbers below DEFAULT (F08-21)
             cs = self.consts()
         else:
             t = self.ag.ty(2)
@@ -1294,6 +1333,12 @@ def attr_item_deviation_classes(a):
             base += 1
         if nconsts > 0 and a[base] == 5:
             known.append("bitstring_constants_lost_on_reparse")
+        if nconsts > 0 and a[base] == 7:
+            inner = base + 1
+            while a[inner] == 6:
+                inner += 1
+            if a[inner] == 2:
+                known.append("default_integer_constants_lost_on_reparse")
     return known
 
 
